@@ -690,23 +690,25 @@ class RotationImplemented(BaseAlignmentModel):
             _template = [_template]
         if _mask.ndim == 3:
             _mask = [_mask]
-        for quat, tmp, mask in zip(self.quaternions, _template, _mask):
+        # candidates are ordered as (rot0, temp0), (rot0, temp1), ...
+        ntmp = self._n_templates
+        for i, (tmp, mask) in enumerate(zip(_template, _mask)):
             pool.add_task(
                 self.pre_transform(img_input * mask, xp),
                 tmp,
                 max_shifts,
-                quat,
+                self.quaternions[i // ntmp],
                 pos=pos,
                 backend=xp,
             )
         results = pool.compute()
         scores = [x[2] for x in results]
-        iopt = np.argmax(scores)
+        iopt = int(np.argmax(scores))
         opt_result = results[iopt]
         result = AlignmentResult(
-            label=0,
+            label=iopt % ntmp,
             shift=opt_result[0],
-            quat=self.quaternions[iopt],
+            quat=self.quaternions[iopt // ntmp],
             score=opt_result[2],
         )
 
